@@ -9,6 +9,9 @@ From LV Require Import Base.Bytes Base.Sx Model.Obj Model.Writer Model.Parser Mo
   Proofs.XrefTableProofs Proofs.ObjectRtProofs Proofs.SpellingProofs Proofs.SpellingObjProofs Proofs.SpellingFileProofs
   Proofs.LoadsFrameProofs Proofs.LoadsTableProofs Proofs.FilterProofsDict.
 From LV Require Proofs.LoadProofsStream.
+From LV Require Import Model.LoaderExt Proofs.LoaderExtProofs.
+From LV Require Import Proofs.LoadsFilterProofs.
+From LV Require Model.Png Spec.StreamCodecSpec Model.StreamFilt.
 From Coq Require Import Lia.
 Local Open Scope N_scope.
 
@@ -32,6 +35,35 @@ Proof.
   assert (u32_max <=? xref_max_id x0 = false) as -> by (apply N.leb_gt; exact H7).
   assert (R : dict_swap_remove t0 K_Prev = t0) by (unfold dict_swap_remove, dict_has; rewrite H5; reflexivity).
   rewrite R, H6, H8. reflexivity.
+Qed.
+
+
+(* the same for c01's extended reader (Model/LoaderExt.v load_ext), for any Stream::decompress: the objects are those
+   Model/Loader.read_entries reads (no object stream, no Length reference among them) *)
+Theorem load_ext_frame_at dec can (junk F pre : bytes) version x0 t0 objs :
+  pdf_offset (junk ++ F) = blen junk ->
+  Loader.header F = Some version ->
+  get_xref_start F = Some (blen pre) ->
+  xref_and_trailer_x dec can F (blen pre) = SOk (x0, t0) ->
+  dict_get t0 K_Prev = None -> dict_has t0 K_Encrypt = false ->
+  xref_max_id x0 < u32_max ->
+  read_entries F (x_entries x0) [] = SOk objs ->
+  load_ext dec can (junk ++ F) =
+  LOk {| d_version := version; d_binary_mark := read_binary_mark F; d_trailer := dict_swap_remove t0 K_Prev;
+         d_objects := objs; d_max_id := xref_max_id x0 |} (x_type x0).
+Proof.
+  intros H1 H2 H3 H4 H5 H6 H7 H8. unfold load_ext. rewrite H1, from_app, H2, H3, H4.
+  rewrite H5. cbn [prev_loop_x].
+  assert (u32_max <=? xref_max_id x0 = false) as -> by (apply N.leb_gt; exact H7).
+  assert (R : dict_swap_remove t0 K_Prev = t0) by (unfold dict_swap_remove, dict_has; rewrite H5; reflexivity).
+  rewrite R, H6.
+  pose proof (read_entries_x_agrees dec can F (x_entries x0) (x_entries x0) []
+                {| r_objs := []; r_pos := []; r_ostm := []; r_zero := [] |} eq_refl) as A.
+  assert (I0 : st_inv {| r_objs := []; r_pos := []; r_ostm := []; r_zero := [] |}).
+  { split; [reflexivity|]. intros id p Hp. discriminate Hp. }
+  specialize (A I0). rewrite H8 in A. destruct A as [st' [-> [Ho [Hs1 Hs2]]]].
+  rewrite Hs1. unfold merge_object_streams. cbn [fold_left].
+  rewrite zero_pass_id by exact Hs2. rewrite Ho. reflexivity.
 Qed.
 
 (* ======================================================================================================
@@ -189,6 +221,22 @@ Lemma NoDup_app_l {A} : forall (a b : list A), NoDup (a ++ b) -> NoDup a.
 Proof.
   induction a as [|x a IH]; intros b H; [constructor|]. cbn [app] in H. inversion H as [|? ? Hn Hd]; subst.
   constructor; [intro K; apply Hn; apply in_or_app; left; exact K|apply (IH b Hd)].
+Qed.
+
+Lemma dict_get_denote_plain : forall d sts k v,
+  dict_get d k = Some v -> (forall y, denote v y = v) -> dict_get (denote_dict d sts) k = Some v.
+Proof.
+  induction d as [|[k0 v0] d IH]; intros sts k v H Hp; [discriminate H|].
+  cbn [denote_dict dict_get] in *. destruct (bytes_eqb k0 k).
+  - inversion H; subst. rewrite Hp. reflexivity.
+  - apply IH; assumption.
+Qed.
+
+Lemma enc_sections_length w0 w1 w2 : forall secs,
+  length (enc_sections w0 w1 w2 secs) = (length (flat_map snd secs) * (w0 + w1 + w2))%nat.
+Proof.
+  unfold enc_sections. induction secs as [|[f es] secs IH]; [reflexivity|].
+  cbn [flat_map snd]. rewrite !app_length, enc_rows_length, IH. lia.
 Qed.
 
 Lemma find_off_app : forall offs1 offs2 n,
@@ -706,6 +754,142 @@ Section StreamFile.
         exact objs_lookup.
     Qed.
   End Plain.
+
+  (* ======== ending B: a filter chain on the cross-reference stream, c01's Model/LoaderExt.load_ext ======== *)
+  Section Filtered.
+    Variable decompress : dict -> bytes -> option (dict * bytes).
+    Variable can : dict -> bool.
+    (* what Stream::decompress leaves of the dictionary: DecodeParms and Filter removed, Length set *)
+    Definition d2 : dict :=
+      dict_set (dict_swap_remove (dict_swap_remove d1 K_DecodeParms) K_Filter) K_Length (OInt (Z.of_nat (length raw))).
+    Hypothesis Hff : dict_has d1 K_Filter = true.
+    Hypothesis Hcan : can d1 = true.
+    Hypothesis Hdec : decompress d1 data = Some (d2, raw).
+    Definition t0F : dict := LoadProofsStream.sr3 d2.
+
+    Lemma d2_wf : dict_wf d2.
+    Proof. apply dict_set_wf. repeat apply swap_remove_wf. exact d1_wf. Qed.
+
+    Lemma d2_get k : k <> K_Length -> k <> K_Filter -> k <> K_DecodeParms -> dict_get d2 k = dict_get d1 k.
+    Proof.
+      intros N1 N2 N3. unfold d2. rewrite dict_get_set_other by exact N1.
+      rewrite dict_get_swap_remove_other; [|apply swap_remove_wf; exact d1_wf|exact N2].
+      apply dict_get_swap_remove_other; [exact d1_wf|exact N3].
+    Qed.
+
+    Lemma xr_parseF : xref_and_trailer_x decompress can FS (xpos st a) = SOk (x0S, t0F).
+    Proof.
+      unfold xref_and_trailer_x. rewrite from_xpos, xobj_not_table. unfold indirect_x.
+      match goal with |- context [indirect_with ?b ?s0 ?e ?l] => pose proof (indirect_with_agrees b s0 e l) as A end.
+      rewrite xobj_parse in A. destruct A as [pos [-> _]].
+      change (stream_new dd data) with (OStream d1 data). cbv iota.
+      unfold filters_modelled. rewrite Hcan, orb_true_r. unfold decode_xref_stream. rewrite Hff, Hdec.
+      rewrite (decode_from d2); [reflexivity| | |].
+      - rewrite d2_get by discriminate. exact d1_size.
+      - rewrite d2_get by discriminate. exact d1_w.
+      - apply d2_get; discriminate.
+    Qed.
+
+    Lemma t0F_clean : dict_get t0F K_Prev = None /\ dict_has t0F K_Encrypt = false.
+    Proof.
+      unfold t0F, dict_has. rewrite !(LoadProofsStream.sr3_get d2 _ d2_wf).
+      change (bytes_eqb K_Prev Xref.K_Index || bytes_eqb K_Prev Xref.K_W || bytes_eqb K_Prev K_Length) with false.
+      change (bytes_eqb K_Encrypt Xref.K_Index || bytes_eqb K_Encrypt Xref.K_W || bytes_eqb K_Encrypt K_Length) with false.
+      cbv iota. rewrite !d2_get by discriminate.
+      rewrite !d1_absent; try reflexivity; try discriminate; try apply Hxd. split; reflexivity.
+    Qed.
+
+    Theorem loads_stream_filtered :
+      exists d, load_ext decompress can (s_junk st ++ FS) = LOk d XTStream /\
+        d_version d = a_version a /\ d_trailer d = t0F /\
+        (forall tp, In tp (tops st a) -> lookup (d_objects d) (fst (fst tp)) = Some (loaded_top tp)) /\
+        lookup (d_objects d) (xid, 0) = Some (stream_new dd data) /\
+        (forall id o, lookup (d_objects d) id = Some o -> (exists tp, In tp (tops st a) /\ fst (fst tp) = id) \/ id = (xid, 0)).
+    Proof.
+      destruct frame_facts as [F1 [F2 F3]]. destruct t0F_clean as [Hp He].
+      eexists. split.
+      - apply (load_ext_frame_at decompress can (s_junk st) FS (hdr st a ++ body_of (otops st a)) (a_version a) x0S t0F objsS); try assumption.
+        + rewrite blen_front. exact xr_parseF.
+        + exact max_id_smallS.
+        + exact objs_read.
+      - cbn [d_version d_trailer d_objects]. split; [reflexivity|]. split.
+        { unfold dict_swap_remove, dict_has. rewrite Hp. reflexivity. }
+        exact objs_lookup.
+    Qed.
+  End Filtered.
+
+  (* ======== ending B with the Gallina decoders: the encodings the reference writer applies ======== *)
+  Section FilteredRef.
+    Variable f : sfilter.
+    Variable arr : bool.
+    Hypothesis Hflt : f <> SfNone.
+    Hypothesis Henc : apply_filter f (N.of_nat (w0' + w1' + w2')) arr raw = (data, fent).
+    Hypothesis Hdp : dict_get (a_trailer a) K_DecodeParms = None.
+    Hypothesis Hwmax : N.of_nat (w0' + w1' + w2') <= Png.USIZE_MAX.
+
+    (* a key of the filter entries is found there *)
+    Lemma xd_get_fent k :
+      bytes_eqb (bs "Type") k = false -> bytes_eqb RefWriter.K_Size k = false -> bytes_eqb (bs "W") k = false ->
+      bytes_eqb (bs "Index") k = false -> bytes_eqb RefWriter.K_Length k = false -> dict_get (a_trailer a) k = None ->
+      dict_get xd k = dict_get fent k.
+    Proof.
+      intros E1 E2 E3 E4 E5 Ht. unfold xd, xd_of. cbn [app dict_get]. rewrite E1, E2, E3.
+      rewrite !dict_get_app.
+      assert (Hi : dict_get idx_part k = None).
+      { destruct idx_part_cases as [->|[-> _]]; [cbn [dict_get]; rewrite E4; reflexivity|reflexivity]. }
+      rewrite Hi, Ht. destruct (dict_get fent k); [reflexivity|]. cbn [dict_get]. rewrite E5. reflexivity.
+    Qed.
+
+    Lemma d1_get_fent k :
+      bytes_eqb (bs "Type") k = false -> bytes_eqb RefWriter.K_Size k = false -> bytes_eqb (bs "W") k = false ->
+      bytes_eqb (bs "Index") k = false -> bytes_eqb RefWriter.K_Length k = false -> dict_get (a_trailer a) k = None ->
+      dict_get d1 k = dict_get fent k.
+    Proof.
+      intros E1 E2 E3 E4 E5 Ht.
+      assert (Hk : k <> K_Length) by (intro K; subst k; rewrite bytes_eqb_refl in E5; discriminate E5).
+      rewrite (d1_get k Hk). pose proof (xd_get_fent k E1 E2 E3 E4 E5 Ht) as Hx.
+      destruct (dict_get fent k) as [v|] eqn:Ef.
+      - unfold dd. apply dict_get_denote_plain; [exact Hx|].
+        assert (Ef' : dict_get (snd (apply_filter f (N.of_nat (w0' + w1' + w2')) arr raw)) k = Some v) by (rewrite Henc; exact Ef).
+        exact (fent_plain _ _ _ _ _ _ Ef').
+      - unfold dd. apply dict_get_denote_none. exact Hx.
+    Qed.
+
+    Lemma raw_rows : raw <> [] /\ length raw = (length ents * (w0' + w1' + w2'))%nat.
+    Proof.
+      assert (Hl : length raw = (length ents * (w0' + w1' + w2'))%nat) by (unfold raw, ents; apply enc_sections_length).
+      split; [|exact Hl]. intro E. rewrite E in Hl. cbn [length] in Hl.
+      pose proof widths_sum as Hw. pose proof ents_xid as Hx. destruct ents as [|e0 es]; [contradiction|]. cbn [length] in Hl. nia.
+    Qed.
+
+    Lemma decompress_d1 : decompress_ref d1 data = Some (d2, raw).
+    Proof.
+      destruct raw_rows as [Hne Hl].
+      assert (Ed : data = fst (apply_filter f (N.of_nat (w0' + w1' + w2')) arr raw)) by (rewrite Henc; reflexivity).
+      assert (Ef : fent = snd (apply_filter f (N.of_nat (w0' + w1' + w2')) arr raw)) by (rewrite Henc; reflexivity).
+      rewrite Ed. unfold d2.
+      apply decompress_ref_ok.
+      apply (chain_decodes f (w0' + w1' + w2') (length ents) arr raw d1 Hflt); try assumption.
+      - pose proof widths_sum. lia.
+      - rewrite <- Ef. apply d1_get_fent; try reflexivity. apply Hxd.
+      - rewrite <- Ef. apply d1_get_fent; try reflexivity. exact Hdp.
+    Qed.
+
+    Lemma d1_has_filter : dict_has d1 K_Filter = true.
+    Proof.
+      unfold dict_has. rewrite d1_get_fent; try reflexivity; [|apply Hxd].
+      pose proof (fent_has_filter f (N.of_nat (w0' + w1' + w2')) arr raw Hflt) as H. rewrite Henc in H. cbn [snd] in H.
+      destruct (dict_get fent K_Filter); [reflexivity|contradiction].
+    Qed.
+
+    Theorem loads_stream_filtered_ref :
+      exists d, load_ext decompress_ref can_ref (s_junk st ++ FS) = LOk d XTStream /\
+        d_version d = a_version a /\ d_trailer d = t0F /\
+        (forall tp, In tp (tops st a) -> lookup (d_objects d) (fst (fst tp)) = Some (loaded_top tp)) /\
+        lookup (d_objects d) (xid, 0) = Some (stream_new dd data) /\
+        (forall id o, lookup (d_objects d) id = Some o -> (exists tp, In tp (tops st a) /\ fst (fst tp) = id) \/ id = (xid, 0)).
+    Proof. apply loads_stream_filtered; [exact d1_has_filter|reflexivity|exact decompress_d1]. Qed.
+  End FilteredRef.
 End StreamFile.
 
 (* ======================================================================================================
@@ -774,4 +958,94 @@ Proof.
   unfold t0S. rewrite (LoadProofsStream.sr3_get _ k W1).
   destruct (bytes_eqb k Xref.K_Index || bytes_eqb k Xref.K_W || bytes_eqb k Obj.K_Length) eqn:E; [reflexivity|].
   apply orb_false_iff in E as [_ E]. unfold d1. apply dict_get_set_other. intro K. subst k. rewrite bytes_eqb_refl in E. discriminate E.
+Qed.
+
+(* ======================================================================================================
+   Part 6: any filter on the cross-reference stream
+   ====================================================================================================== *)
+Definition xs_enc st a x : bytes * dict :=
+  apply_filter (xs_filter x) (N.of_nat (w0' st a x + w1' st a x + w2' st a x)) (xs_array x) (raw st a x).
+
+Theorem ref_write_stream_any st a x file :
+  s_xref st = XStream x -> s_ostms st = [] -> ref_write st a = Some file ->
+  file = s_junk st ++ FS st a x (snd (xs_enc st a x)) (fst (xs_enc st a x)) /\ NoDup (numsS a x) /\ ~ In 0 (numsS a x) /\
+  contains (bs "%PDF-") (s_junk st) = false /\ no_eolb (a_version a) = true.
+Proof.
+  intros Hxs Hos H. unfold ref_write in H. unfold compressed_nums in H. rewrite Hos, Hxs in H.
+  cbn [flat_map map containers] in H. rewrite !app_nil_r in H. change ([] ++ [xs_id x]) with [xs_id x] in H.
+  destruct (contains (bs "%PDF-") (s_junk st) || contains [x0d] (a_version a) || contains [x0a] (a_version a)) eqn:C1; [discriminate H|].
+  apply orb_false_iff in C1 as [C1 C1c]. apply orb_false_iff in C1 as [C1a C1b].
+  fold (nums a) in H. change (nums a ++ [xs_id x]) with (numsS a x) in H.
+  destruct (negb (nodup_N (numsS a x) && nodup_N [] && negb (mem_N 0 (numsS a x)))) eqn:C2; [discriminate H|].
+  apply negb_false_iff in C2. apply andb_true_iff in C2 as [C2 C2c]. apply andb_true_iff in C2 as [C2a _].
+  rewrite filter_all_true in H by (intro; reflexivity).
+  rewrite emit_objs_eq in H. destruct (xs_w x) as [[w0 w1] w2] eqn:Ew.
+  match type of H with context [apply_filter ?f ?c ?b ?r] =>
+    assert (Ee : apply_filter f c b r = xs_enc st a x) by (unfold xs_enc, raw, w0', w1', w2'; rewrite Ew; reflexivity);
+    rewrite Ee in H end.
+  destruct (xs_enc st a x) as [dat fe] eqn:Ex. cbv iota beta in H.
+  assert (Einj : forall (u v : bytes), Some u = Some v -> u = v) by (intros u v K; inversion K; reflexivity).
+  apply Einj in H. subst file. clear Einj.
+  split.
+  - f_equal. cbn [fst snd]. unfold FS, xobj_text. rewrite <- (app_assoc (w_indirect _ _ _ _)).
+    unfold xd, xd_of, idx_part, raw, w0', w1', w2'. rewrite Ew. cbn [fst snd].
+    reflexivity.
+  - split; [apply nodup_N_spec; exact C2a|]. split.
+    + intro K. apply negb_true_iff in C2c. unfold mem_N in C2c.
+      assert (existsb (N.eqb 0) (numsS a x) = true) by (apply existsb_exists; exists 0; split; [exact K|reflexivity]). congruence.
+    + split; [exact C1a|]. apply version_no_eol; assumption.
+Qed.
+
+(* the dictionary of the cross-reference stream as written, with the filter entries *)
+Definition xdf st a x : dict := xd st a x (snd (xs_enc st a x)) (fst (xs_enc st a x)).
+
+Theorem loads_stream_filtered_file st a x file :
+  s_xref st = XStream x -> s_ostms st = [] -> xs_filter x <> SfNone -> ref_write st a = Some file ->
+  Forall top_ok (tops st a) -> utf8_decode (a_version a) <> None ->
+  (spell_wf (ODict (xdf st a x)) (i_obj (xs_istyle x)) /\ (nest (ODict (xdf st a x)) <= MAX_DEPTH)%nat /\
+   dict_get (a_trailer a) K_Prev = None /\ dict_get (a_trailer a) K_Encrypt = None /\
+   dict_get (a_trailer a) K_Filter = None /\ dict_get (a_trailer a) Xref.K_Index = None) ->
+  dict_get (a_trailer a) K_DecodeParms = None ->
+  (xpos st a <= u32_max /\ sizeS a x <= u32_max /\ 25 < xpos st a) ->
+  N.of_nat (w0' st a x + w1' st a x + w2' st a x) <= Png.USIZE_MAX ->
+  (9 + length (sx_mid (s_sx_eol1 st) (s_sx_sp1 st) (xpos st a) (s_sx_sp2 st) (s_sx_eol2 st)) <= 25)%nat ->
+  exists d, load_ext decompress_ref can_ref file = LOk d XTStream /\
+    d_version d = a_version a /\ d_trailer d = t0F st a x (snd (xs_enc st a x)) (fst (xs_enc st a x)) /\
+    (forall tp, In tp (tops st a) -> lookup (d_objects d) (fst (fst tp)) = Some (loaded_top tp)) /\
+    lookup (d_objects d) (xid x, 0) =
+      Some (stream_new (dd st a x (snd (xs_enc st a x)) (fst (xs_enc st a x))) (fst (xs_enc st a x))) /\
+    (forall id o, lookup (d_objects d) id = Some o -> (exists tp, In tp (tops st a) /\ fst (fst tp) = id) \/ id = (xid x, 0)).
+Proof.
+  intros Hxs Hos Hf Hw Htops Hu Hxd Hdp Hsmall Hwm Hsx.
+  destruct (ref_write_stream_any st a x file Hxs Hos Hw) as [-> [Hnd [H0 [Hj Hv]]]].
+  apply (loads_stream_filtered_ref st a x Hos (snd (xs_enc st a x)) (fst (xs_enc st a x)) Hnd H0 Htops (conj Hv Hu) Hj Hxd
+           (fent_keys _ _ _ _) Hsmall Hsx (xs_filter x) (xs_array x) Hf); try assumption.
+  unfold xs_enc. destruct (apply_filter _ _ _ _); reflexivity.
+Qed.
+
+(* what the loaded trailer holds: the dictionary as read back, without Filter, DecodeParms, Length, W, Index *)
+Theorem filtered_trailer_reading st a x k :
+  spell_wf (ODict (xdf st a x)) (i_obj (xs_istyle x)) ->
+  dict_get (t0F st a x (snd (xs_enc st a x)) (fst (xs_enc st a x))) k =
+  if bytes_eqb k Xref.K_Index || bytes_eqb k Xref.K_W || bytes_eqb k Obj.K_Length then None
+  else if bytes_eqb k K_Filter || bytes_eqb k K_DecodeParms then None
+  else dict_get (denote_dict (xdf st a x) (dict_sts (i_obj (xs_istyle x)))) k.
+Proof.
+  intro Hw. assert (W : dict_wf (xdf st a x)) by (apply spell_wf_dict in Hw; exact (proj1 Hw)).
+  set (fe := snd (xs_enc st a x)). set (da := fst (xs_enc st a x)).
+  assert (W1 : dict_wf (d1 st a x fe da)).
+  { apply dict_set_wf. unfold dict_wf, keys, dd. rewrite denote_dict_keys. exact W. }
+  assert (W2 : dict_wf (d2 st a x fe da)) by (apply dict_set_wf; repeat apply swap_remove_wf; exact W1).
+  unfold t0F. rewrite (LoadProofsStream.sr3_get _ k W2).
+  destruct (bytes_eqb k Xref.K_Index || bytes_eqb k Xref.K_W || bytes_eqb k Obj.K_Length) eqn:E; [reflexivity|].
+  apply orb_false_iff in E as [_ E].
+  assert (Hk : k <> K_Length) by (intro K; subst k; rewrite bytes_eqb_refl in E; discriminate E).
+  unfold d2. rewrite dict_get_set_other by exact Hk.
+  destruct (bytes_eqb k K_Filter) eqn:Ef.
+  { apply bytes_eqb_eq in Ef. subst k. cbn [orb]. apply dict_get_swap_remove_same. apply swap_remove_wf. exact W1. }
+  apply bytes_eqb_neq in Ef. rewrite dict_get_swap_remove_other; [|apply swap_remove_wf; exact W1|exact Ef].
+  destruct (bytes_eqb k K_DecodeParms) eqn:Ed.
+  { apply bytes_eqb_eq in Ed. subst k. cbn [orb]. apply dict_get_swap_remove_same. exact W1. }
+  apply bytes_eqb_neq in Ed. rewrite dict_get_swap_remove_other; [|exact W1|exact Ed]. cbn [orb].
+  unfold d1. apply dict_get_set_other. exact Hk.
 Qed.
